@@ -170,6 +170,9 @@ class simplify_chained_calls(FuncADLNodeTransformer):
         assert isinstance(func_f, ast.Lambda)
         func_g = selection
 
+        # g is about to be placed under f's parameter: make sure that parameter's name
+        # can't capture a variable g refers to.
+        func_f = make_args_unique(func_f)
         lambda_select = lambda_body_replace(
             func_f, make_Select(lambda_body(func_f), func_g)
         )  # type: ast.AST
@@ -243,6 +246,9 @@ class simplify_chained_calls(FuncADLNodeTransformer):
         assert isinstance(func_f, ast.Lambda)
         func_g = selection
 
+        # g is about to be placed under f's parameter: make sure that parameter's name
+        # can't capture a variable g refers to.
+        func_f = make_args_unique(func_f)
         captured_arg = func_f.args.args[0].arg
         captured_body = func_f.body
         new_select = function_call("SelectMany", [captured_body, func_g])
@@ -337,6 +343,10 @@ class simplify_chained_calls(FuncADLNodeTransformer):
         assert isinstance(func_f, ast.Lambda)
 
         func_g = filter
+
+        # g is about to be placed under f's parameter: make sure that parameter's name
+        # can't capture a variable g refers to.
+        func_f = make_args_unique(func_f)
         lambda_where = lambda_body_replace(
             func_f, function_call("Where", [lambda_body(func_f), func_g])
         )
